@@ -12,10 +12,10 @@ using namespace vf;
 
 namespace {
 
-struct Prog { int route; int nconn; int tsize; int udp; int close_order; int lat; int reuse; /* 1: the first connection's two socket objects are closed and used for another connection */ int late = 0; /* 1: the traffic starts 50 ms before virtual time crosses the next multiple of 2^32 microseconds */ };
+struct Prog { int route; int nconn; int tsize; int udp; int close_order; int lat; int reuse; /* 1: the first connection's two socket objects are closed and used for another connection */ int late = 0; /* 1: the traffic starts 50 ms before virtual time crosses the next multiple of 2^32 microseconds */ int v6side = 0; /* 1: both nodes also have an IPv6 address and exchange a UDP datagram each way and a TCP transfer over it: none of that belongs in the (IPv4) capture, all of it must still work */ };
 // route: 0 loss-free, 1 lossy (tail-drop queue); tsize index; udp: 0 none, 1 small both ways, 2 mixed sizes incl. 65507; lat: 0 1ms, 1 700ms (timestamps cross seconds)
 int const TSIZES[] = { 1, 3000, 20000 };
-std::string prog_str(Prog const& p) { return fmt("route=%s conns=%d tcp-bytes=%d udp=%d close-order=%d latency=%s%s", p.route ? "lossy" : "loss-free", p.nconn, TSIZES[p.tsize], p.udp, p.close_order, p.lat ? "700ms" : "1ms", p.reuse ? " +socket-reuse" : "") + (p.late ? " +starting 50ms before a multiple of 2^32 us of virtual time" : ""); }
+std::string prog_str(Prog const& p) { return fmt("route=%s conns=%d tcp-bytes=%d udp=%d close-order=%d latency=%s%s", p.route ? "lossy" : "loss-free", p.nconn, TSIZES[p.tsize], p.udp, p.close_order, p.lat ? "700ms" : "1ms", p.reuse ? " +socket-reuse" : "") + (p.late ? " +starting 50ms before a multiple of 2^32 us of virtual time" : "") + (p.v6side ? " +IPv6 traffic alongside" : ""); }
 
 struct Expect { int64_t t; bool tcp; std::string src, dst; int sport, dport; std::string payload; bool eof; bool new_connection = false; /* marker: a SYN from client port sport was seen: sequence numbers of that connection start over */ };
 
@@ -52,7 +52,20 @@ Res run_prog(Prog const& p, std::string const& file)
 			asio::high_resolution_timer lt(sim.get_io_context()); lt.expires_after(std::chrono::microseconds(target - now_us)); lt.async_wait([](error_code const&) {});
 			sim.run();
 		}
-		asio::io_context nA(sim, addr("10.0.0.1")), nB(sim, addr("10.0.1.1"));
+		asio::io_context nA(sim, p.v6side ? std::vector<ip::address>{ addr("10.0.0.1"), addr("fe80::a") } : std::vector<ip::address>{ addr("10.0.0.1") }), nB(sim, p.v6side ? std::vector<ip::address>{ addr("10.0.1.1"), addr("fe80::b") } : std::vector<ip::address>{ addr("10.0.1.1") });
+		// ---- IPv6 traffic alongside ----
+		ip::udp::socket u6a(nA), u6b(nB); ip::tcp::socket t6c(nA), t6s(nB); ip::tcp::acceptor t6a(nB); int u6_got = 0; std::string t6_got, t6_data(3000, 'v'); std::vector<char> u6buf(100), u6buf2(100), t6buf(4096);
+		std::function<void()> t6read;
+		if (p.v6side) {
+			u6a.open(ip::udp::v6()); u6a.bind(ip::udp::endpoint(addr("fe80::a"), 4600)); u6a.non_blocking(true); u6b.open(ip::udp::v6()); u6b.bind(ip::udp::endpoint(addr("fe80::b"), 5600)); u6b.non_blocking(true);
+			u6b.async_receive(asio::buffer(u6buf), [&](error_code const& ec, std::size_t) { if (ec) return; ++u6_got; error_code e2; u6b.send_to(asio::buffer("pong6", 5), ip::udp::endpoint(addr("fe80::a"), 4600), 0, e2); });
+			u6a.async_receive(asio::buffer(u6buf2), [&](error_code const& ec, std::size_t) { if (!ec) ++u6_got; });
+			error_code e6; u6a.send_to(asio::buffer("ping6", 5), ip::udp::endpoint(addr("fe80::b"), 5600), 0, e6); if (e6) fail("v6: send_to over IPv6 with capture enabled failed: " + ecs(e6));
+			t6a.open(ip::tcp::v6()); t6a.bind(ip::tcp::endpoint(addr("fe80::b"), 6600)); t6a.listen();
+			t6read = [&]() { t6s.async_read_some(asio::buffer(t6buf), [&](error_code const& ec, std::size_t n) { if (ec) return; t6_got.append(t6buf.data(), n); t6read(); }); };
+			t6a.async_accept(t6s, [&](error_code const& ec) { if (!ec) t6read(); });
+			t6c.async_connect(ip::tcp::endpoint(addr("fe80::b"), 6600), [&](error_code const& ec) { if (ec) return; asio::async_write(t6c, asio::buffer(t6_data), [](error_code const&, std::size_t) {}); });
+		}
 		struct Conn { std::unique_ptr<ip::tcp::socket> c, s; std::unique_ptr<ip::tcp::acceptor> a; std::string wc, ws, rc, rs; int64_t sc = 0, ss = 0; std::vector<char> bc, bs; bool up = false; int ups = 0; bool c_closed = false, s_closed = false; };
 		std::vector<std::unique_ptr<Conn>> conns;
 		std::function<void(Conn*, bool)> writer, reader;
@@ -107,6 +120,7 @@ Res run_prog(Prog const& p, std::string const& file)
 			}
 		}
 		sim.run();
+		if (p.v6side) { if (u6_got != 2) fail(fmt("v6: %d of the 2 IPv6 datagrams sent alongside were delivered", u6_got)); if (t6_got != t6_data) fail(fmt("v6: the IPv6 TCP transfer alongside delivered %zu of %zu bytes", t6_got.size(), t6_data.size())); }
 		for (auto& k : conns) { if (k->rs != k->wc || k->rc != k->ws) fail(fmt("transfer: a TCP transfer of the program did not complete (%zu/%zu, %zu/%zu)", k->rs.size(), k->wc.size(), k->rc.size(), k->ws.size())); }
 		if (p.reuse && !conns.empty()) {
 			// close the first connection's two socket objects and use the same objects for a new connection with new data
@@ -119,7 +133,7 @@ Res run_prog(Prog const& p, std::string const& file)
 			sim.run();
 			if (k->rs != k->wc || k->rc != k->ws) fail(fmt("transfer: the connection on the reused socket objects did not complete (%zu/%zu, %zu/%zu)", k->rs.size(), k->wc.size(), k->rc.size(), k->ws.size()));
 		}
-		{ error_code ig; ua.cancel(ig); ub.cancel(ig); for (auto& k : conns) { k->c->close(ig); k->s->close(ig); k->a->close(ig); } }
+		{ error_code ig; ua.cancel(ig); ub.cancel(ig); if (p.v6side) { u6a.cancel(ig); u6b.cancel(ig); t6c.close(ig); t6s.close(ig); t6a.close(ig); } for (auto& k : conns) { k->c->close(ig); k->s->close(ig); k->a->close(ig); } }
 		sim.run();
 		// what the probes saw at the head of the outgoing routes, in transmission order (closing segments of the clean-up included)
 		std::map<std::string, int> seen_seq;
@@ -197,7 +211,7 @@ struct PcapEngine : Engine
 	uint64_t units(Args const& a) override
 	{
 		progs.clear();
-		for (int r = 0; r < 2; ++r) for (int n = 1; n <= (a.thorough() ? 3 : 2); ++n) for (int t = 0; t < 3; ++t) for (int u = 0; u < 3; ++u) for (int co = 0; co < 2; ++co) for (int l = 0; l < 2; ++l) for (int ru = 0; ru < 2; ++ru) for (int late = 0; late < 2; ++late) progs.push_back(Prog{ r, n, t, u, co, l, ru, late });
+		for (int r = 0; r < 2; ++r) for (int n = 1; n <= (a.thorough() ? 3 : 2); ++n) for (int t = 0; t < 3; ++t) for (int u = 0; u < 3; ++u) for (int co = 0; co < 2; ++co) for (int l = 0; l < 2; ++l) for (int ru = 0; ru < 2; ++ru) for (int late = 0; late < 2; ++late) for (int v6 = 0; v6 < 2; ++v6) { if (v6 && (late || ru)) continue; progs.push_back(Prog{ r, n, t, u, co, l, ru, late, v6 }); }
 		return progs.size();
 	}
 	void run_unit(uint64_t u, Ctx& ctx) override
